@@ -842,10 +842,10 @@ impl<'a, 'b> Gen<'a, 'b> {
                     self.expr(&ty, d)
                 };
                 self.forbidden.pop();
-                // U10: a string variable may be modified in place only if it stems from a literal that is unique
-                // in the program and evaluated once (top level, outside loops and functions)
+                // a string variable with a known minimal length, so that element assignments can use valid indices
+                // (U10 no longer restricts where such literals may occur: every evaluation of a literal yields its own string)
                 let mut mut_str = false;
-                let e = if ty == Ty::Str && self.p.str_mut && self.ctxs.len() == 1 && self.cx().loops == 0 && self.t.maybe(90) {
+                let e = if ty == Ty::Str && self.p.str_mut && self.t.maybe(90) {
                     mut_str = true;
                     let u = self.fresh("uniek");
                     let extra = self.str_lit();
@@ -943,8 +943,17 @@ impl<'a, 'b> Gen<'a, 'b> {
             }
             "strset" => {
                 let vs: Vec<Var> = self.visible().into_iter().filter(|v| v.mut_str).collect();
-                if vs.is_empty() || self.ctxs.len() > 1 {
-                    return vec![self.print_stmt(d1)];
+                if vs.is_empty() || self.t.maybe(60) {
+                    // any string variable, guarded by its length
+                    let any: Vec<Var> = self.visible().into_iter().filter(|v| v.ty == Ty::Str && !v.readonly).collect();
+                    if any.is_empty() {
+                        return vec![self.print_stmt(d1)];
+                    }
+                    let v = self.t.pick(&any).clone();
+                    let ch = self.t.pick(&["q", "é", "€", "𝄞", " ", "Z"]).to_string();
+                    let idx = if self.t.maybe(128) { int(0) } else { neg(int(1)) };
+                    let set = es(assign(index(ident(&v.name), idx), string(&ch)));
+                    return vec![es(iff(infix(calln("lengte", vec![ident(&v.name)]), Operator::Gt, int(0)), vec![set], None))];
                 }
                 let v = self.t.pick(&vs).clone();
                 // the text starts with "uniek<k>", so indices 0..5 exist
